@@ -30,3 +30,14 @@ package p2p
 //@     invariant arr(out) == arr(old(out)) || fresh(out)
 //@     invariant arr(out) == arr(old(out)) ==> cap(out) == cap(old(out))
 //@     invariant arr(out) == arr(old(out)) ==> off(out) == off(old(out)) && len(out) <= cap(old(out)) && (forall j :: j < off(old(out)) || j >= off(old(out)) + cap(old(out)) ==> elemAt(out, j) == old(elemAt(out, j)))
+
+// ---- peer ids: text that is not a valid encoding is rejected and changes nothing ----------------
+
+//@ func (*PeerID).UnmarshalText
+//@   noframe
+//@   requires pid != nil
+//@   ghostvar decoded = false
+//@   ensures [rejects] ret == nil ==> ghost(decoded)
+//@   ensures [unchanged] ret != nil ==> forall j :: 0 <= j && j < 32 ==> pid[j] == old(pid[j])
+//@   after call (*Encoding).Decode:
+//@     set decoded = res1 == nil
